@@ -310,7 +310,11 @@ def _r6(db, rep):
     reverse already exists - in particular it never refuses a new connection that closes no loop."""
     import itertools
     from engine.evalmini import Interp, Obj, OutOfFragment, NOT_HANDLED
-    r6 = rep.rule('r6', 'HANDLE-ACCESS / LOAD-PARENT: the raw source pointer of a handle is read only inside ossSourceFacet; LoadParent refuses only self, duplicate and reversed connections', 2)
+    r7 = rep.rule('r7', 'SILENT-WRITE-ANNOUNCED: a function that rewrites a pictogram\'s document with notifications suspended (the normal path hash change -> OnCoreChange -> children outdated is switched off there) marks the children outdated itself when the formal content changed', 1)
+    _silent_write_announced(db, r7)
+    r8 = rep.rule('r8', 'TRANSLATIONS-PRESENT: the translations of an operation exist only after it was executed; every dereference of them is dominated by a non-null test (a document can be attached to a pictogram that was never executed), and such a pictogram is not reported as done', 3)
+    _translations_guard(db, r8)
+    r6 = rep.rule('r6', 'HANDLE-ACCESS / LOAD-PARENT: the raw source pointer of a handle is read only inside ossSourceFacet; LoadParent refuses exactly the connections that are self-connections, duplicates or close a loop of any length (the parent relation of a loaded document is acyclic)', 2)
     SF = O + 'ossSourceFacet'
     offenders = []
     n_reads = 0
@@ -362,11 +366,11 @@ def _r6(db, rep):
                             return it.eval(fn, fn.stmts[n['args'][0]], env)
                         return NOT_HANDLED
                     res = Interp(db, on_call=on_call, max_steps=50000).call(lp, [child, parent], this)
-                    must_refuse = child == parent or parent in g[child] or child in g[parent]
-                    may_refuse = must_refuse or closes_loop(g, child, parent)
+                    must_refuse = child == parent or parent in g[child] or child in g[parent] or closes_loop(g, child, parent)     # the parent relation stays acyclic
+                    may_refuse = must_refuse
                     why = None
                     if res and must_refuse:
-                        why = 'accepted'
+                        why = 'accepted' + (' although it closes a loop' if closes_loop(g, child, parent) and not (child == parent or parent in g[child] or child in g[parent]) else '')
                     elif not res and not may_refuse:
                         why = 'refused although it is new and closes no loop'
                     elif res and this['graph'][child] != g[child] + [parent]:
@@ -381,4 +385,81 @@ def _r6(db, rep):
     if bad:
         r6.violation('LoadParent', '%s:%d' % (lp.file, lp.line), bad + ' (a loaded document then gives an operation one parent only)')
     else:
-        r6.ok('LoadParent', 'refuses exactly self, duplicate and reversed connections on %d (graph, connection) cases' % cases, '%s:%d' % (lp.file, lp.line))
+        r6.ok('LoadParent', 'refuses exactly self-connections, duplicates and loop-closing connections on %d (graph, connection) cases' % cases, '%s:%d' % (lp.file, lp.line))
+
+
+def _silent_write_announced(db, r7):
+    n_g = 0
+    for f in sorted(db.functions, key=lambda x: x.name):
+        if not f.has_cfg() or not f.name.startswith('ccl::oss::'):
+            continue
+        guards = [n for n in f.calls() if (n.get('cs') or '').endswith('::DndGuard')]
+        if not guards:
+            continue
+        n_g += 1
+        inst = '::'.join(f.name.split('::')[2:])
+        marks = []
+        for lp in [x for x in f.walk() if x['k'] == 'CXXForRangeStmt']:
+            if not any((c.get('cs') or '').endswith('::ChildrenOf') for c in f.calls(f.stmts[lp['range']])):
+                continue
+            for n in f.walk(f.stmts[lp['body']]):
+                if n['k'] in ('BinaryOperator', 'CXXOperatorCallExpr') and n.get('op') == '=':
+                    kids = f.children(n) if n['k'] == 'BinaryOperator' else [f.stmts[a_] for a_ in n['args']]
+                    l = f.strip(kids[0])
+                    r = f.strip(kids[1])
+                    if l is not None and l['k'] == 'MemberExpr' and l.get('member') == 'outdated' and r is not None and r.get('bv', r.get('cv')) in (True, 1):
+                        marks.append(n)
+            for c in f.calls(f.stmts[lp['body']]):
+                if (c.get('cs') or '').split('::')[-1] in ('OnCoreChange', 'MarkOutdated'):
+                    marks.append(c)
+        direct = [c for c in f.calls() if (c.get('cs') or '').split('::')[-1] == 'OnCoreChange']
+        gp = f.position_of(guards[0])
+        ok = any(f.position_of(m) in f.reach(gp) for m in marks + direct if f.position_of(m) is not None and gp is not None)
+        if ok:
+            r7.ok(inst, 'children are marked outdated after the silent write', f.loc(guards[0]))
+        else:
+            r7.violation(inst, f.loc(guards[0]), 'the document of the pictogram is rewritten while notifications are suspended and no child is marked outdated afterwards: an operation built on this one keeps reporting `done` for a synthesis of the previous content (child = b1+b2, grand = child+b3; edit b1, re-execute child: grand stays done with the old constituents)')
+    if not n_g:
+        r7.broken('no function suspends notifications (DndGuard): the anchor of this rule vanished')
+
+
+def _translations_guard(db, r8):
+    from engine.cfgq import dominating_guards, normalise_cond
+    n_sites = 0
+    for f in sorted(db.functions, key=lambda x: x.name):
+        if not f.has_cfg() or not f.name.startswith('ccl::oss::ossOperationsFacet::'):
+            continue
+        for n in f.walk():
+            if n['k'] != 'CXXOperatorCallExpr' or n.get('op') not in ('*', '->') or not (n.get('cs') or '').startswith(('std::unique_ptr', 'ccl::meta::PropagateConst', 'ccl::meta::UniqueCPPtr')):
+                continue
+            tgt = f.strip(f.stmts[n['args'][0]])
+            if tgt is None or tgt['k'] != 'MemberExpr' or tgt.get('member') != 'translations':
+                continue
+            n_sites += 1
+            pos = f.position_of(n)
+            ok = False
+            for c, pol in (dominating_guards(f, pos) if pos is not None else []):
+                c2, pol2 = normalise_cond(f, c, pol)
+                for x in f.walk(c) if c is not None else []:
+                    if x['k'] in ('BinaryOperator', 'CXXOperatorCallExpr') and x.get('op') in ('==', '!=') and 'translations' in (x.get('txt') or '') and 'nullptr' in (x.get('txt') or ''):
+                        # polarity of this comparison inside the guard: == nullptr must be false, != nullptr must be true
+                        neg = sum(1 for a_ in f.ancestors(x) if a_['k'] == 'UnaryOperator' and a_.get('op') == '!' and any(y is a_ for y in f.walk(c))) % 2 == 1
+                        holds = pol != neg
+                        if (x['op'] == '!=') == holds:
+                            ok = True
+            inst = '%s:%s@%s' % (f.name.split('::')[-1], (n.get('txt') or '')[:30], f.loc(n).split(':')[-1])
+            if ok:
+                r8.ok(inst, 'dominated by a non-null test of the translations', f.loc(n), nontrivial=False)
+            else:
+                r8.violation(inst, f.loc(n), '`%s` dereferences the translations without a dominating non-null test (an assert is compiled out): a pictogram that was defined, never executed and then given a document by ConnectPict2Src has none, and Execute / IsTranslatable crash' % (n.get('txt') or '')[:60])
+    st = db.fn('ccl::oss::ossOperationsFacet::StatusOf', required=False)
+    if st is None:
+        r8.broken('anchor vanished: ossOperationsFacet::StatusOf')
+    else:
+        reads = any(x['k'] == 'MemberExpr' and x.get('member') == 'translations' for x in st.walk())
+        if reads:
+            r8.ok('StatusOf', 'done is reported only for an operation that has translations', '%s:%d' % (st.file, st.line))
+        else:
+            r8.violation('StatusOf', '%s:%d' % (st.file, st.line), 'StatusOf reports `done` for any pictogram with a non-empty document, also one that was never executed (no translations): the attached document is shown as the current synthesis of its parents')
+    if not n_sites:
+        r8.broken('no dereference of ossOperationsFacet translations found')
